@@ -130,6 +130,11 @@ def run_impl(c) -> str:
         except celpy.CELParseError:
             return "parse-error"
         prog = env.program(ast)
+        for earlier in c.get("hist") or []:          # earlier evaluations of the SAME program, other bindings
+            try:
+                prog.evaluate({p: json_to_cel(v) for p, v in earlier})
+            except Exception:  # noqa
+                pass
         v = prog.evaluate({p: json_to_cel(v) for p, v in c["binds"]})
         if isinstance(v, CELEvalError):
             return "err"
@@ -185,6 +190,20 @@ def denote(names: Dict[Tuple[str, ...], Any], pkg: Tuple[str, ...], ref: Tuple[s
     raise SpecErr(("nohead",))
 
 
+def declaration_apart(d: Tuple[str, ...], full: Tuple[str, ...], names) -> bool:
+    """A declared, unbound name `d` that shares its head with the qualified reference `full` takes no part in
+    the lookup when the two part ways inside a namespace that the BINDINGS create anyway: their longest common
+    prefix is a proper prefix of both (the reference neither reaches the declared name nor stops at one of its
+    namespaces) and of some binding's name (so the declaration adds a sibling entry to an existing namespace,
+    not a namespace below a value or a level that would otherwise bind nothing)."""
+    k = 0
+    while k < len(d) and k < len(full) and d[k] == full[k]:
+        k += 1
+    if k == len(d) or k == len(full):
+        return False
+    return any(len(n) > k and n[:k] == full[:k] for n in names)
+
+
 class Spec:
     def __init__(self, c):
         self.names = {split(p): v for p, v in c["binds"]}
@@ -217,7 +236,7 @@ class Spec:
         # declarations without a binding that could take part in this lookup: the property is silent
         for d in self.decls - set(self.names):
             for L in levels(self.pkg):
-                if d[:len(L) + 1] == L + (ref[0],):
+                if d[:len(L) + 1] == L + (ref[0],) and not declaration_apart(d, L + ref, self.names):
                     raise Unspec("declared, unbound name in reach")
         for n in self.names:                  # a binding named like (a prefix of) the package path
             if n == self.pkg[:len(n)] and self.pkg:
@@ -407,6 +426,55 @@ def deep_package_cases(rng: random.Random, n: int):
                 yield {"kind": "deep", "runner": rn, "pkg": ".".join(pkg), "decls": [], "binds": binds, "e": ["ref", ref]}
 
 
+HIST_DECLS = ["a.z", "a.b.z", "p.z", "p.a.z", "p.q.z", "p.q.a.z", "p.a.b.z", "z.y", "b.z", "x.z", "a.b.c", "a.b", "p.a.b", "a", "x"]
+HIST_REFS = REFS + ["x", "x", "a.b.c", "a.b"]
+
+
+def history_cases(rng: random.Random, n: int):
+    """ONE program evaluated several times: the reference means a binding of THIS evaluate() call whatever was
+    bound in earlier calls.  Environments with dotted declarations (namespaces that exist before any binding, at
+    the root and at the package levels, sharing heads with the bindings or not), a history of 1..3 earlier binding
+    sets of other SHAPES than the last one (longer / shorter dotted names, other package levels, maps vs. dotted
+    names, names dropped), both runners.  `binds` is the last evaluation: model and specification see only it."""
+    cfgs = list(all_configs())
+
+    def binding_set():
+        binds = []
+        for li, ch in enumerate(rng.choice(cfgs)):
+            binds += level_bindings(li, ch)
+        binds = [list(b) for b in binds if rng.random() < 0.6]
+        for L in LEVELS:
+            if rng.random() < 0.3:
+                binds.append([".".join(L + ("x",)), 90 + len(L) + 10 * rng.randint(0, 3)])
+        if rng.random() < 0.3:
+            rng.shuffle(binds)
+        return binds
+
+    for _ in range(n):
+        pkg = rng.choice(PKGS)
+        decls = [[d, rng.randrange(len(ANN_TYPES))] for d in rng.sample(HIST_DECLS, rng.choice([0, 1, 1, 2, 3]))]
+        hist = [binding_set() for _ in range(rng.randint(1, 3))]
+        r = rng.random()
+        if r < 0.25:
+            # the last evaluation binds a proper prefix of an earlier dotted name to a map (or nothing at all there)
+            last = []
+            for p, v in hist[-1]:
+                parts = p.split(".")
+                if len(parts) > 1 and parts[-1] in PI and rng.random() < 0.7:
+                    q = ".".join(parts[:-1])
+                    if q not in PKGS and all(q != b[0] for b in last):
+                        last.append([q, {parts[-1]: (v if isinstance(v, int) else 1) + 5}])
+                elif rng.random() < 0.5 and all(p != b[0] for b in last):
+                    last.append([p, v])
+        elif r < 0.4:
+            last = [b for b in hist[-1] if rng.random() < 0.5]          # a subset: names dropped
+        else:
+            last = binding_set()
+        for ref in rng.sample(HIST_REFS, 3):
+            for rn in ("I", "C"):
+                yield {"kind": "hist", "runner": rn, "pkg": pkg, "decls": decls, "hist": hist, "binds": last, "e": ["ref", ref]}
+
+
 MACRO_BINDS = [
     [["x", 100], ["y", {"k": 201}], ["a", 300]],
     [["x", 100], ["y", {"k": 201}], ["a.b", 310]],
@@ -448,6 +516,8 @@ class C12(Prop):
             cases += list(config_cases(cfg, rng if rng.random() < 0.3 else None))
         # package paths of any depth, the head bound at arbitrary (intermediate) levels
         cases += list(deep_package_cases(rng, 48 if quick else 3000))
+        # one program, several evaluations with bindings of different shapes, declared namespaces
+        cases += list(history_cases(rng, 60 if quick else 4000))
         # declarations: same names as bindings (must not matter), and declared-only names (model only)
         for _ in range(40 if quick else 1500):
             cfg = rng.choice(list(all_configs())) if not quick else rng.choice(cfgs)
@@ -517,12 +587,20 @@ class C12(Prop):
 
     def oracle(self, c, out):
         exp = Spec(c).outcome(c["e"])
-        if exp is None:
-            return None
         src = e_cel(c["e"])
         ctx = f"runner {c['runner']}, package {c.get('pkg') or None!r}, bindings {dict((p, v) for p, v in c['binds'])}"
         if c.get("decls"):
             ctx += f", declarations {c['decls']}"
+        if c.get("hist"):
+            ctx += f", after evaluating the same program with {[dict((p, v) for p, v in h) for h in c['hist']]}"
+        if exp is None:
+            if c.get("hist"):
+                # where the statement does not fix the value it still fixes WHICH bindings count: those passed to
+                # this evaluate() -- a new program given the same bindings must agree
+                fresh = run_impl({k: v for k, v in c.items() if k != "hist"})
+                if fresh != out:
+                    return f"{ctx}: {src!r} gave {out}; a new program evaluated with these bindings gives {fresh} (a binding of an earlier evaluation is still seen)"
+            return None
         if exp == "err":
             if out == "err" or out.startswith("EXC "):
                 return None
